@@ -238,6 +238,11 @@ class Shared:
 def api_ops():
     m = pool()["m1"]
     return {
+        # class auto-detection from the keys of a JSON object: Base {x} and Derived {x, y} both hold every key of {"x": 1};
+        # the narrowest class wins, whatever the shared context has seen so far (decDerived shows it Derived alone)
+        "decDerived": lambda sh: sh.jp.from_string('{"x": 1, "y": "s"}', m.Derived),
+        "decNoClassNarrow": lambda sh: _name_and_value(sh.jp.from_string('{"x": 1}')),
+        "decNoClassWide": lambda sh: _name_and_value(sh.jp.from_string('{"x": 1, "y": "s"}')),
         "serA": lambda sh: sh.xs.render(m.A(child=m.Child(v="1"))),
         "serB": lambda sh: sh.xs.render(m.B(child=m.Child(v="2"))),
         "parseA": lambda sh: sh.xp.from_string('<A xmlns="urn:a"><child><v>1</v></child></A>', m.A),
